@@ -2415,6 +2415,29 @@ def keygen_cert_strategy(tier: str):
 #    unsorted / repeated / raw-data options are outside PROTOCOL.certkeys'
 #    well-formed set: only "must be refused" verdicts are asserted there.
 
+_WARM = [False]
+
+
+def _warmed(run):
+    """Every case starts from the same process state: one key of every type
+    has been instantiated (state shared between key objects - e.g. a class
+    attribute that collects algorithm names - then shows in a single replayed
+    case as well as in the middle of a long run)"""
+
+    def wrapper(case):
+        if not _WARM[0]:
+            for kt in KTS:
+                k = refkey(kt, 0)
+                # (the asyncssh objects are built lazily)
+                assert k.a_priv is not None and k.a_pub is not None
+            _WARM[0] = True
+
+        return run(case)
+
+    wrapper.__name__ = run.__name__
+    return wrapper
+
+
 FAMILIES = [
     Family('rawsig', run_rawsig, strategy=rawsig_strategy,
            budget={'quick': 260, 'thorough': 8000},
@@ -2461,3 +2484,6 @@ FAMILIES = [
                              'import:unknown-critical',
                              'unknown-extension']}),
 ]
+
+for _fam in FAMILIES:
+    _fam.run = _warmed(_fam.run)
